@@ -161,6 +161,11 @@ pub fn run_history(h: &History, rep: &mut Report, extra: &mut Vec<(String, Strin
         let mut tot_cell: usize = 0xDEAD;
         let mut rust_tot: Option<usize> = Some(0);
         let mut all_c: Vec<u8> = vec![]; let mut all_r: Vec<u8> = vec![]; let mut fed: Vec<u8> = vec![]; let mut had_meta = false;
+        // whole-history model line `ffi H`: tokens + (for stream calls) the C instance's own payload-encoder invocations
+        enum HTok { Plain(String), Stream { head: String, events: Vec<brotli::enc::encode::verif_stream_hook::EncodeEvent>, delivered_before: usize } }
+        let mut htoks: Vec<HTok> = h.params.iter().map(|(k, v)| HTok::Plain(format!("P:{}:{}", k, v))).collect();
+        let mut hcells: Vec<String> = vec![];
+        let mut h_ok = h.dict.is_none();
         for (ci, call) in h.calls.iter().enumerate() {
             match call {
                 Call::Stream { op, input, cap, streaming, tot, null_in, null_out } => {
@@ -180,14 +185,21 @@ pub fn run_history(h: &History, rep: &mut Report, extra: &mut Vec<(String, Strin
                     let out_base: *mut u8 = if *cap == 0 && *null_out { core::ptr::null_mut() } else { cout.as_mut_ptr() };
                     let mut ip = in_base; let mut opp = out_base;
                     let tot_before = tot_cell;
+                    let _ = brotli::enc::encode::verif_stream_hook::take(); // drop the twin's records
+                    let delivered_before_call = delivered;
                     let ret = if *streaming { c::BrotliEncoderCompressStreaming(st, cop(*op), &mut ai, ip, &mut ao, opp) }
                               else { c::BrotliEncoderCompressStream(st, cop(*op), &mut ai, &mut ip, &mut ao, &mut opp, if *tot { &mut tot_cell } else { core::ptr::null_mut() }) };
+                    let c_events = brotli::enc::encode::verif_stream_hook::take();
                     let produced = *cap - ao.min(*cap);
                     let consumed = input.len() - ai.min(input.len());
                     let d_in = (ip as usize).wrapping_sub(in_base as usize);
                     let d_out = (opp as usize).wrapping_sub(out_base as usize);
                     delivered += produced;
                     if *op == 3 { had_meta = true; } else { fed.extend_from_slice(&input[..consumed]); }
+                    if rpanic { h_ok = false; }
+                    let flags = ((*tot && !*streaming) as u8) + 2 * (in_base.is_null() as u8) + 4 * (out_base.is_null() as u8);
+                    htoks.push(HTok::Stream { head: format!("{}~C:{}:{}+0:{}", flags, op, hex(input), cap), events: c_events, delivered_before: delivered_before_call });
+                    if *tot && !*streaming { hcells.push(format!("{}.{}", tot_cell, delivered)); }
                     all_c.extend_from_slice(&cout[..produced]); all_r.extend_from_slice(&rout[..roo]);
                     if produced == 0 { nontrivial = true; rep.count("stream_calls.no_output"); }
                     if input.is_empty() || *cap == 0 { nontrivial = true; rep.count("stream_calls.zero_count"); }
@@ -225,22 +237,55 @@ pub fn run_history(h: &History, rep: &mut Report, extra: &mut Vec<(String, Strin
                     if cs != rs || cbytes != rbytes { rep.violation("ffi:take-output-differs", &format!("call #{}: TakeOutput({}) gave {} bytes, the Rust API {}", ci, n, cs, rs), case.clone()); }
                     // correspondence needs the pending bytes: what was taken ++ what is still pending is not observable
                     // through the C ABI; the taken prefix is checked against the model with the taken bytes themselves
+                    htoks.push(HTok::Plain(format!("T:{}", n)));
                     ops.push(format!("t:{}:{}", n, hex(&rbytes)));
                     imp.push(format!("{}:{}:0", hex(&cbytes), cs));
                 }
-                Call::SetParam(k, v) => { nontrivial = true; set_param(st, &mut twin, *k, *v, &format!("as call #{}", ci), rep, &mut plines); }
+                Call::SetParam(k, v) => { nontrivial = true; htoks.push(HTok::Plain(format!("P:{}:{}", k, v))); set_param(st, &mut twin, *k, *v, &format!("as call #{}", ci), rep, &mut plines); }
                 Call::HasMore | Call::IsFinished => {
                     // both read-only entry points on the same state; model line `ffi Q` gets the two fields they read
                     let (ss, av) = ((*st).compressor.stream_state_ as i32, (*st).compressor.available_out_);
                     let a = c::BrotliEncoderHasMoreOutput(st); let b = twin.has_more_output(); if (a != 0) != b { rep.violation("ffi:has-more-differs", &format!("call #{}", ci), case.clone()); }
                     let f = c::BrotliEncoderIsFinished(st); let g = twin.is_finished(); if (f != 0) != g { rep.violation("ffi:is-finished-differs", &format!("call #{}", ci), case.clone()); }
                     if ((*st).compressor.stream_state_ as i32, (*st).compressor.available_out_) != (ss, av) { rep.violation("ffi:query-changed-state", &format!("call #{}: HasMoreOutput / IsFinished changed stream_state_ or available_out_", ci), case.clone()); }
+                    htoks.push(HTok::Plain(if matches!(call, Call::HasMore) { "M".into() } else { "F".into() }));
                     rep.count("query_calls");
                     plines.push((format!("ffi Q {} {}", ss, av.min(4096)), format!("{}:{}", f, a)));
                 }
             }
         }
         let fin = c::BrotliEncoderIsFinished(st) != 0;
+        // ---- whole-history model line: the model re-runs the history through ffiRun with the recorded answers
+        if h_ok {
+            let mut line = String::from("ffi H");
+            'build: for tk in &htoks {
+                match tk {
+                    HTok::Plain(s) => { line.push(' '); line.push_str(s); }
+                    HTok::Stream { head, events, delivered_before } => {
+                        line.push(' '); line.push_str(head);
+                        for (k, e) in events.iter().enumerate() {
+                            let nbits = (e.out_size * 8 + e.carry_bits_after as u64) as i64 - e.carry_bits_before as i64;
+                            if nbits < 0 { h_ok = false; break 'build; }
+                            let start = (*delivered_before as u64 + e.next_out_offset) * 8 + e.carry_bits_before as u64;
+                            let mut v = vec![0u8; ((nbits as usize) + 7) / 8];
+                            for j in 0..nbits as usize {
+                                let p = start as usize + j;
+                                if p / 8 >= all_c.len() { h_ok = false; break 'build; } // still pending at the end of the history
+                                if (all_c[p / 8] >> (p % 8)) & 1 == 1 { v[j / 8] |= 1 << (j % 8); }
+                            }
+                            let emit = e.last_flush_pos_after == e.input_pos || e.site == 2;
+                            line.push_str(&format!("{}{}.{}.{}.{}", if k == 0 { ":" } else { "/" }, e.result as u8, emit as u8, nbits, hex(&v)));
+                        }
+                    }
+                }
+            }
+            if h_ok && line.len() < 60000 {
+                let mut hh: u32 = 2166136261; for b in all_c.iter() { hh = (hh ^ (*b as u32)).wrapping_mul(16777619); }
+                let e = &(*st).compressor;
+                extra.push((line, format!("{}:{}:{}:{}:{}:{}", if hcells.is_empty() { "-".to_string() } else { hcells.join(",") }, all_c.len(), hh, e.total_out_, fin as u8, (c::BrotliEncoderHasMoreOutput(st) != 0) as u8)));
+                rep.count("whole_history_model_lines");
+            } else { rep.count("whole_history_model_lines.skipped"); }
+        } else { rep.count("whole_history_model_lines.skipped"); }
         if fin {
             // metadata blocks are skipped by a decoder: the stream must decode to exactly what was consumed
             match crate::dec::decode_dict(&all_c, dict_bytes, 1 << 24) {
